@@ -17,7 +17,9 @@ event code is modelled once and used both stand-alone and from inside `call_once
 
 Points of the code the model keeps visible:
 * `event::wait` reads the flag *outside* the lock first (`evLoad` from `wWant`); only when that
-  read returns false it takes the lock and loops `while (!event_) cond_.wait(l)`;
+  read returns false it takes the lock and loops `while (!event_) cond_.wait(l)`; the read of
+  the loop condition (`evLoadL`) and the enqueue (`cvEnq`) are separate steps, so a `set` may
+  store `true` between them;
 * `event::set` stores `true` *outside* the lock (`stored true` from `sWant`, no lock needed) and
   only then takes the lock and calls `notify_all`; `reset` is a plain store of `false`;
 * `notify_all` swaps the whole queue out and resumes every entry while the lock is held (no
@@ -53,6 +55,7 @@ inductive Pc where
   | wWant (c : Ctx)               -- at the point `event.wait`, before the fast-path load
   | wLockW (c : Ctx)              -- fast path read false; lock not yet taken
   | wLocked (c : Ctx)             -- lock held, at the loop head `while (!event_)`
+  | wMustEnq (c : Ctx)            -- lock held, loop condition read false, before the cv enqueue
   | enq (c : Ctx)                 -- entry pushed on the cv queue (lock held)
   | unl (c : Ctx) (p : Bool)      -- lock released, about to suspend; p = already popped
   | susp (c : Ctx) (p : Bool)     -- inside agent.suspend
@@ -83,7 +86,7 @@ inductive Ev where
   | slAcq (t : Nat)
   | slRel (t : Nat)
   | evLoad (t : Nat) (v : Bool)
-  | evPass (t : Nat) (v : Bool)
+  | evLoadL (t : Nat) (v : Bool)
   | stored (t : Nat) (v : Bool)
   | cvEnq (t : Nat) (size : Nat)
   | notifyAll (t : Nat) (tgts : List Nat)
@@ -170,17 +173,18 @@ def step (s : St) : Ev → Option St
       | .sLockW c => some { s with lock := some t, pc := upd s.pc t (.sLocked c) }
       | _ => none
     else none
-  | .cvEnq t size =>
-    -- `while (!event_.load()) cond_.wait(l)`: entered only when the flag reads false
-    if t < s.n ∧ s.lock = some t ∧ s.flag = false ∧ size = s.queue.length + 1 then
+  | .evLoadL t v =>
+    -- loop condition of `wait_locked`: `while (!event_.load())`, read under the lock (but the
+    -- flag is written by `set` / `reset` without the lock)
+    if t < s.n ∧ s.lock = some t ∧ v = s.flag then
       match s.pc t with
-      | .wLocked c => some { s with queue := s.queue ++ [t], pc := upd s.pc t (.enq c) }
+      | .wLocked c => some { s with pc := upd s.pc t (if v then .wPass c else .wMustEnq c) }
       | _ => none
     else none
-  | .evPass t v =>
-    if t < s.n ∧ s.lock = some t ∧ s.flag = true ∧ v = true then
+  | .cvEnq t size =>
+    if t < s.n ∧ s.lock = some t ∧ size = s.queue.length + 1 then
       match s.pc t with
-      | .wLocked c => some { s with pc := upd s.pc t (.wPass c) }
+      | .wMustEnq c => some { s with queue := s.queue ++ [t], pc := upd s.pc t (.enq c) }
       | _ => none
     else none
   | .slRel t =>
